@@ -3,7 +3,7 @@ import ast
 import z3
 from fractions import Fraction
 
-from .values import (Sym, SymOpt, SymSeq, SymSet, SmallSet, Ref, Opaque, Closure, Builtin, ModuleVal, ExcVal,
+from .values import (Sym, SymOpt, SymSeq, SeqSlice, SymSet, SmallSet, Ref, Opaque, Closure, Builtin, ModuleVal, ExcVal,
                      RowVal, OutOfSubset, StrS, to_z3, merge, truthy, zbool, values_equal, member, set_le,
                      is_scalar, is_concrete, sort_of_value, join_sorts, as_items, coerce)
 from . import values as V
@@ -333,6 +333,10 @@ class Lib:
             return self.wrap(self.contains(ctx, b, a))
         if op == 'NotIn':
             return self.neg(self.contains(ctx, b, a))
+        if isinstance(a, Opaque) or isinstance(b, Opaque):
+            m = self.I.models.get('compare.fallback')
+            if m:
+                return m(ctx, op, a, b)
         if isinstance(a, RowVal) or isinstance(b, RowVal):
             return self.elementwise(ctx, lambda x, y: self.compare(ctx, op, x, y), a, b)
         if isinstance(a, SymSeq) or isinstance(b, SymSeq):
@@ -585,6 +589,13 @@ class Lib:
                     raise OutOfSubset("non-integer index")
                 I.oblige("%s/safety/index-in-range" % ctx.speckey, z3.And(i >= 0, i < cont.length), 'safety')
                 return cont.get(i)
+            if idx[0] == 'slice' and idx[2] is None and idx[3] is None and isinstance(idx[1], (int, Sym)) and not isinstance(idx[1], bool):
+                lo = to_z3(idx[1])
+                if lo.sort() != z3.IntSort():
+                    raise OutOfSubset("non-integer slice bound")
+                if I.feasible(lo < 0):
+                    raise OutOfSubset("slice with a possibly negative lower bound")
+                return SeqSlice(cont, lo)
             raise OutOfSubset("index %r into symbolic sequence" % (idx,))
         if isinstance(cont, Sym) and cont.kind == 'str':
             m = I.models.get('str.getitem')
